@@ -494,6 +494,9 @@ impl Check for C15 {
     }
     fn expect_reach(&self, _tier: Tier) -> Vec<String> {
         vec!["ctor-ok".into(), "ctor-err".into(), "enc".into(), "dec-ok".into(), "dec-err".into(), "igmp-byte8".into(), "ipv6-traffic-class".into(), "other-safe-constructors".into()]
+            .into_iter()
+            .chain(["dec-ok:SingleVlanHeader:bytes0..=1", "dec-ok:Ipv4Header:bytes1..=1", "dec-ok:Ipv4Header:bytes6..=7", "dec-ok:Ipv6FragmentHeader:bytes2..=3", "dec-ok:Ipv6Header:bytes0..=2", "dec-ok:Ipv6Header:bytes1..=3", "dec-ok:MacsecHeader:bytes0..=0", "dec-ok:MacsecHeader:bytes1..=1"].iter().map(|s| s.to_string()))
+            .collect()
     }
     fn run_unit(&self, tier: Tier, u: u64, ctx: &mut Ctx) {
         let thorough = tier.is_thorough();
@@ -666,6 +669,14 @@ impl Check for C15 {
                                     |case| {
                                         case.at(h.name);
                                         let mut raw = vec![bgv; h.len];
+                                        // the constant fields of the format (IP version, IHL 5) outside the swept window keep their
+                                        // value, otherwise every decoder rejects the header before it looks at the swept bits
+                                        for (fs, fnb, fv) in h.fixed {
+                                            let (blo, bhi) = (fs / 8, (fs + fnb - 1) / 8);
+                                            if bhi < slo || blo > shi {
+                                                set_bits(&mut raw, *fs, *fnb, *fv);
+                                            }
+                                        }
                                         let per = (total / blocks).min(total);
                                         let mut nstates = 0u64;
                                         let mut saw_ok = false;
@@ -709,6 +720,8 @@ impl Check for C15 {
                                         case.nontrivial_n(nstates);
                                         if saw_ok {
                                             case.reach("dec-ok");
+                                            // per header and window: a sweep in which no decoder ever accepts decides nothing about decoding
+                                            case.reach(format!("dec-ok:{}:bytes{}..={}", h.name, slo, shi));
                                         }
                                         if saw_err {
                                             case.reach("dec-err");
@@ -961,7 +974,8 @@ fn macsec_sl_norm(_h: &Hdr, _fname: &str, _raw: &[u8]) -> bool {
 /// IPv6 version 6; MACsec version bit 0, and SL==1 illegal only for unmodified payloads
 fn ref_accepts(h: &Hdr, raw: &[u8]) -> bool {
     match h.name {
-        "Ipv4Header" => raw[0] >> 4 == 4 && raw[0] & 0xf == 5 && u16::from_be_bytes([raw[2], raw[3]]) >= 20,
+        // header decoders validate version and IHL (20 byte buffer: IHL 5); the total length is a packet level rule (C03)
+        "Ipv4Header" => raw[0] >> 4 == 4 && raw[0] & 0xf == 5,
         "Ipv6Header" => raw[0] >> 4 == 6,
         "MacsecHeader" => {
             let v = raw[0] & 0x80 != 0;
